@@ -66,7 +66,7 @@ Definition text_ok (ty : etype) (v : cdata) : Prop :=
 Definition shortname_ok (ty : etype) (content : list (etree + cdata)) : Prop :=
   is_named_in_version T ty ver = Val true -> exists e, In (inl e) content /\ e_name e = name_short_name T.
 
-(* a character data element (content mode Characters) holds at most one value (fix 3656060), in every node *)
+(* a character data element (content mode Characters) holds at most one value (fix 00b10f0), in every node *)
 Definition count_text (l : list (etree + cdata)) : nat :=
   List.length (filter (fun c => match c with inr _ => true | inl _ => false end) l).
 
